@@ -19,6 +19,7 @@ var c05Types = []TypeSpec{
 	{K: KString, W: WMap, MapKey: KString}, {K: KInt, W: WMap, MapKey: KString},
 	{K: KBool},
 	{K: KBag}, {K: KOnOff}, {K: KBool, W: WSlice},
+	{K: KString, W: WFunc1},
 }
 
 var c05IniModes = []string{"none", "normal-before-cli", "as-defaults-before-cli", "as-defaults-after-cli"}
@@ -49,7 +50,7 @@ func c05Value(r *Rand, t TypeSpec, tag string) string {
 	return strconv.Itoa(r.Intn(100000))
 }
 
-const c05Prod = 17 * 2 * 3 * 3 * 4 * 3 * 4
+const c05Prod = 18 * 2 * 3 * 3 * 4 * 3 * 4
 
 func c05Run(c *Ctx) {
 	r := c.R
@@ -84,6 +85,12 @@ func c05Run(c *Ctx) {
 	if isBool || t.K == KOnOff || t.K == KBool {
 		ndef = 0 // (default tags on bool-kinded types are refused at declaration time)
 	}
+	isFunc := t.IsFunc()
+	if isFunc {
+		// a callback option: the callback runs for the values of the highest-ranked source only (judged without
+		// INI: a callback cannot be "overridden" after the fact, so the order of INI reading is a different question)
+		pre, iniMode = false, "none"
+	}
 	if t.K == KBag {
 		// an unmarshaler that appends: the statement's "replace" cannot be asked of the occurrences of one source,
 		// but a lower-ranked source must still not leak into the result: judged for default tags / environment
@@ -97,6 +104,10 @@ func c05Run(c *Ctx) {
 	d.NsDelim = []string{"", ".", "-"}[r.Intn(3)]
 	root := &Cmd{ID: d.NewID(), Name: "app", SubOptional: true}
 	root.G = &Grp{Cmd: root, Field: "G0"}
+	if r.Chance(1, 3) {
+		// an env-namespace on the parser's own group can only be assigned programmatically (Build does so)
+		root.G.EnvNS = "RT"
+	}
 	d.Root = root
 	d.Cmds = append(d.Cmds, root)
 	d.Grps = append(d.Grps, root.G)
@@ -306,6 +317,24 @@ func c05Run(c *Ctx) {
 	case pre:
 		top, vals = "prestored", focus.Initial
 	}
+	if isFunc {
+		var want []string
+		for _, v := range vals {
+			want = append(want, strconv.Quote(v))
+		}
+		var got []string
+		for _, e := range b.Log.E {
+			if e.Kind == "callback" {
+				got = append(got, e.Args...)
+			}
+		}
+		if !eqStrs(got, want) {
+			c.Violate(fmt.Sprintf("precedence:callback:top=%s:env=%s", top, envMode), "callback option: called with %q, the highest-ranked source present (%s) gives %q [defaults=%q env=%q cli=%q]", got, top, want, focus.Defaults, envVals, cliVals)
+			return
+		}
+		c.Held(fmt.Sprintf("%s/top=%s/ini=%s", t, top, iniMode), fmt.Sprintf("ndef=%d env=%s ncli=%d home=%d", ndef, envMode, ncli, home))
+		return
+	}
 	exp := reflect.New(t.GoType()).Elem()
 	if isBool {
 		switch top {
@@ -362,7 +391,7 @@ func init() {
 		Run:           c05Run,
 		MinNontrivial: 300,
 		RaceCases:     100000,
-		Rule: "case k decodes to the exhaustive product: 17 option types (scalars, pointers, slices, slice of pointers, maps, Duration, Unmarshalers incl. a bool-kinded and an appending one, bool, []bool counting flag) x pre-stored value {absent, present} x default tags {0,1,2} x environment {unset, set, set-but-empty} x INI {none, normal before CLI, as-defaults before CLI, as-defaults after CLI} x command-line occurrences {0,1,2} x home {root, group with env-namespace, doubly nested, sub-command}; random values, env-delim {none , ;}, 4 env-namespace delimiters, env keys / inner namespaces / long names that happen to start with their own namespace and delimiter, section names in random case, INI key by field name or namespaced long name, 1-3 entries for multi-valued options. " +
+		Rule: "case k decodes to the exhaustive product: 18 option types (scalars, pointers, slices, slice of pointers, maps, Duration, Unmarshalers incl. a bool-kinded and an appending one, bool, []bool counting flag, func(string) callback) x pre-stored value {absent, present} x default tags {0,1,2} x environment {unset, set, set-but-empty} x INI {none, normal before CLI, as-defaults before CLI, as-defaults after CLI} x command-line occurrences {0,1,2} x home {root, group with env-namespace, doubly nested, sub-command}; random values, env-delim {none , ;}, 4 env-namespace delimiters, env keys / inner namespaces / long names that happen to start with their own namespace and delimiter, section names in random case, INI key by field name or namespaced long name, 1-3 entries for multi-valued options. " +
 			"Oracle: the field equals exactly the reference conversion of the values of the highest-ranked source present (CLI > INI > env > default tags > pre-stored); an unrelated option keeps its default. Non-trivial = judged cell; distinct = (type, top source, INI mode, full source subset, home, delimiter, #values). The cases after the product are histories: [parse or help, rename an env-namespace / change the env-namespace delimiter, export the variable under its new name, parse] compared with a fresh parser of the changed declaration.",
 		Assumptions: []string{"set-but-empty environment variables are unspecified (the unchanged code treats them as providing \"\")", "normal-mode INI read after the command line is not ranked by the statement and is not generated", "callback options get no defaults"},
 		Technique:   "runtime reference-model monitor over the exhaustive product of value sources, real environment variables and INI readers; race detector on a concurrent re-run with disjoint env keys (thorough); metamorphic history monitor ([use, change of the public model, use] on one parser vs. a fresh parser of the changed declaration)",
